@@ -226,6 +226,7 @@ type WTClient struct {
 	StreamReset   bool
 	HandlerDone   bool
 	Origin        string
+	RawQuery      *string // overrides the query string entirely (adversarial clients)
 }
 
 // Start issues the extended CONNECT request; the handler goroutine blocks in
@@ -237,7 +238,20 @@ func (c *WTClient) Start() *Exchange {
 	}
 	c.Conn = newMockH3Conn()
 	c.ReqStr = newMockStream(0)
-	u := &url.URL{Path: w.Path, RawQuery: c.O.ExtraQuery}
+	// a conformant client builds the CONNECT URL like every other transport URL
+	q := "EIO=4&transport=webtransport"
+	if c.O.NoEIO {
+		q = "transport=webtransport"
+	} else if c.O.EIO != "" {
+		q = "EIO=" + c.O.EIO + "&transport=webtransport"
+	}
+	if c.O.ExtraQuery != "" {
+		q += "&" + c.O.ExtraQuery
+	}
+	if c.RawQuery != nil {
+		q = *c.RawQuery
+	}
+	u := &url.URL{Path: w.Path, RawQuery: q}
 	ctx, cancel := context.WithCancel(context.Background())
 	req := &http.Request{Method: http.MethodConnect, URL: u, Proto: "webtransport", ProtoMajor: 3,
 		Header: http.Header{"Sec-Webtransport-Http3-Draft02": {"1"}}, Host: "example.test", RemoteAddr: "10.9.9.9:5555", RequestURI: u.RequestURI(), Body: http.NoBody}
